@@ -28,6 +28,8 @@ type Case struct {
 	Margin  int    `json:"margin"` // -1: no hint
 	// StrMargin: the MARGIN hint is given as a decimal string, which the writers accept alike
 	StrMargin bool `json:"margin_as_string,omitempty"`
+	// ECLevel (QR only): 0 = no ERROR_CORRECTION hint, 1..4 = L M Q H given together with the other hints
+	ECLevel int `json:"ec_level,omitempty"`
 }
 
 func marginHint(c Case) interface{} {
@@ -106,7 +108,13 @@ func check(raw json.RawMessage) error {
 			hints[gozxing.EncodeHintType_MARGIN] = marginHint(c)
 			margin = c.Margin
 		}
-		code, err := encoder.Encoder_encode(c.Content, decoder.ErrorCorrectionLevel_L, hints)
+		level := decoder.ErrorCorrectionLevel_L
+		if c.ECLevel >= 1 && c.ECLevel <= 4 {
+			level = []decoder.ErrorCorrectionLevel{decoder.ErrorCorrectionLevel_L, decoder.ErrorCorrectionLevel_M, decoder.ErrorCorrectionLevel_Q, decoder.ErrorCorrectionLevel_H}[c.ECLevel-1]
+			hints[gozxing.EncodeHintType_ERROR_CORRECTION] = level
+			desc += fmt.Sprintf(" ec=%v", level)
+		}
+		code, err := encoder.Encoder_encode(c.Content, level, hints)
 		if err != nil {
 			return fmt.Errorf("hx: %v", err)
 		}
@@ -358,6 +366,9 @@ func TestCheck(t *testing.T) {
 			if w != "DM" && rapid.Bool().Draw(t, "hasmargin") {
 				cs.Margin = rapid.IntRange(0, 20).Draw(t, "margin")
 				cs.StrMargin = rapid.IntRange(0, 3).Draw(t, "strmargin") == 0
+			}
+			if w == "QR" && rapid.Bool().Draw(t, "withec") {
+				cs.ECLevel = rapid.IntRange(1, 4).Draw(t, "ec")
 			}
 			nw, nh := natural(w, cs.Content, cs.Margin)
 			if nw == 0 {
